@@ -39,12 +39,12 @@ OPS = {
           "set_attr_hg", "set_attr_node", "set_attr_edge", "rm_attr_node", "rm_attr_edge", "clear", "copy"],
     "M": ["add_node", "add_nodes", "add_edge", "add_edges", "remove_edge", "remove_node",
           "set_weight", "set_hg_md", "set_attr_hg", "set_attr_node", "set_attr_edge",
-          "rm_attr_node", "rm_attr_edge"],
+          "rm_attr_node", "rm_attr_edge", "set_layer_md"],
 }
 BASE_W = {"add_node": 2, "add_nodes": 2, "add_edge": 10, "add_edges": 4, "remove_edge": 5, "remove_edges": 2,
           "remove_node": 4, "remove_nodes": 1.5, "set_weight": 3, "set_node_md": 2, "set_edge_md": 2,
           "set_hg_md": 0.5, "set_attr_hg": 1, "set_attr_node": 2, "set_attr_edge": 2, "rm_attr_node": 1,
-          "rm_attr_edge": 1, "clear": 0.3, "copy": 0.8}
+          "rm_attr_edge": 1, "clear": 0.3, "copy": 0.8, "set_layer_md": 1.5}
 PROFILES = {
     "balanced": {},
     "removal": {"remove_edge": 3, "remove_edges": 3, "remove_node": 3, "remove_nodes": 3},
@@ -333,6 +333,12 @@ class Gen:
             elif x < 0.7:
                 md["type"] = r.choice(["Hypergraph", "other"])
             return {"op": name, "md": md}
+        if name == "set_layer_md":
+            # per-layer / dataset-level metadata of a multiplex hypergraph (replace semantics, kept in the hypergraph metadata)
+            names = [l for l in self.cfg["layers"] if isinstance(l, str) and l not in ("weighted", "type", "multiplex_metadata")]
+            if not names or r.random() < 0.25:
+                return {"op": name, "dataset": True, "md": self.md(True) if r.random() < 0.8 else {}}
+            return {"op": name, "layer": r.choice(names), "md": self.md(True) if r.random() < 0.8 else {}}
         if name == "set_attr_hg":
             if r.random() < 0.2:
                 return {"op": name, "f": "weighted", "v": r.choice([True, False])}
@@ -394,16 +400,29 @@ class Gen:
             if key not in seen:
                 seen.add(key)
                 frs.append(f)
+        dup = None
+        if frs and r.random() < 0.25:
+            # the edge list names one hyperedge twice (nodes possibly in another order): without a weight list this is
+            # what two add_edge calls do (weight 2 when weighted, idempotent otherwise)
+            dup = r.randrange(len(frs))
+            f2 = json.loads(json.dumps(frs[dup]))
+            if k == "D":
+                f2["e"] = [r.sample(f2["e"][0], len(f2["e"][0])), r.sample(f2["e"][1], len(f2["e"][1]))]
+            else:
+                f2["e"] = r.sample(f2["e"], len(f2["e"]))
+            frs.append(f2)
         if frs:
             op["es"] = [f["e"] for f in frs]
             if k == "T":
                 op["ts"] = [f["t"] for f in frs]
             if k == "M":
                 op["layers"] = [f["layer"] for f in frs]
-            if model.weighted and r.random() < 0.7:
+            if model.weighted and r.random() < 0.7 and dup is None:
                 op["ws"] = [self.weight() for _ in frs]
             if r.random() < max(0.3, self.cfg["md_density"]):
                 op["mds"] = [self.md(True) if r.random() < 0.7 else {} for _ in frs]
+                if dup is not None:
+                    op["mds"][-1] = json.loads(json.dumps(op["mds"][dup]))
         if r.random() < 0.4:
             op["hmeta"] = self.md(True)
         return op
@@ -863,7 +882,7 @@ def simplify_ops(case):
 
 # ------------------------------------------------------- derived-object comparison
 MD_KEYS_OBS = ("nodes_md", "node_md", "all_nodes_md", "edges_md", "edge_md", "all_edges_md", "hmeta")
-NODE_KEYS_OBS = ("nodes", "num_nodes", "inc", "deg", "nbr", "degseq", "degdist", "check_node")
+NODE_KEYS_OBS = ("nodes", "num_nodes", "inc", "deg", "nbr", "degseq", "degdist", "check_node", "isolated", "is_isolated")
 
 
 def compare_derived(pid, what, kind, obj, expected, universe, ignore_md=True, ignore_nodes=False, ctx=None,
